@@ -48,3 +48,10 @@ def search(ctx):
 
 def replay(ctx, case):
     return replay_eval(ctx, "C20", case)
+
+
+MANIFEST = dict(
+    text="Proof: _get_iota, regenerated from the source, selects bit j and deletes it (C20_iota_delta, C20_iota_index_bits, all n); Lagrange's identity behind the Meyer-Wallach formula over any field with involution (C20_lagrange). Tie: translator validated by executing the translation against CPython for every argument (n<=6/8). The value, range, invariances and the geometric measure's post-conditions are evaluated; the geometric measure's convergence is not a theorem.",
+    note='Modelled, not verified: numpy sums; tensorly Tucker iteration (post-conditions evaluated only).',
+    technique='Coq proof (Z bit lemmas; mathcomp big-operator algebra) on translator-regenerated definitions + translation validation + numpy evaluation',
+    design_ref='DESIGN.md section 4, C20')
